@@ -39,7 +39,7 @@ def main(argv=None):
         drv.run(ctx)
         rc = ctx.finish(**getattr(drv, "EVIDENCE", {}))
     except (TLCError, common.MachineryError) as e:
-        print("MACHINERY-FAILURE property=%s: %s" % (pid, e))
+        print("MACHINERY-FAILURE property=%s: %s" % (pid, str(e)[:1500]))
         if not os.environ.get("RV_KEEP_WORK"):
             ctx.cleanup()
         return 2
